@@ -738,6 +738,18 @@ func (env *Env) evalCall(x *ECall) SV {
 		specFail("len of %s", v.V.Sort.Name)
 	case "cap":
 		return SV{sliceCap(arg(0).V), ti}
+	case "off":
+		// off(s): position of s[0] in the backing array elems(s); s[i] == elems(s)[off(s)+i]
+		return SV{sliceOff(arg(0).V), ti}
+	case "elems":
+		v := arg(0)
+		sl, ok := types.Unalias(v.T).Underlying().(*types.Slice)
+		if v.T == nil || !ok {
+			specFail("elems: argument is not a slice")
+		}
+		es := vc.eng.st.SortOf(sl.Elem())
+		_, h := vc.arrHeap(env.st, es)
+		return SV{Select(h, sliceArr(v.V), vc.eng.st.ArrayOf(sortInt, es)), types.NewArray(sl.Elem(), 0)}
 	case "has":
 		m, k := arg(0), arg(1)
 		if mt, ok := types.Unalias(m.T).Underlying().(*types.Map); m.T != nil && ok {
@@ -822,6 +834,43 @@ func (env *Env) evalCall(x *ECall) SV {
 	}
 	if sv, ok := env.evalMeasureCall(x); ok {
 		return sv
+	}
+	if x.Fun == "uf" {
+		// uf("pkg.Func" | "pkg.(*T).Method", resultIndex, args...): the uninterpreted function standing for an opaque Go function
+		if len(x.Args) < 2 {
+			specFail("uf(name, index, args...)")
+		}
+		nm, ok1 := x.Args[0].(*EStr)
+		ix, ok2 := x.Args[1].(*EInt)
+		if !ok1 || !ok2 {
+			specFail("uf: name must be a string literal and index an integer literal")
+		}
+		key := nm.V
+		if !strings.HasPrefix(key, vipnodeMod) {
+			key = vipnodeMod + "/" + key
+		}
+		fn := vc.eng.FindFunc(key)
+		if fn == nil {
+			specFail("uf: unknown function %s", nm.V)
+		}
+		ct := vc.eng.contractOf(fn)
+		if ct == nil || !ct.Opaque {
+			specFail("uf: %s has no opaque contract", nm.V)
+		}
+		idx := 0
+		fmt.Sscanf(ix.V, "%d", &idx)
+		var ts []*Term
+		var sorts []*Sort
+		for _, a := range x.Args[2:] {
+			v := env.eval(a)
+			ts = append(ts, v.V)
+			sorts = append(sorts, v.V.Sort)
+		}
+		rt := fn.Signature.Results().At(idx).Type()
+		rs := vc.eng.st.SortOf(rt)
+		name := ufName(fn, idx)
+		vc.declareFun(name, sorts, rs)
+		return SV{App(rs, name, ts...), rt}
 	}
 	// user-defined pure function (macro); a package qualifier is allowed and ignored
 	pname := x.Fun
